@@ -129,9 +129,10 @@ static void analyse(const Matrix& G, const Vector& b, int& rank, bool& wellposed
     if (!(s1 > 0)) { wellposed = false; return; }
     for (int i = 0; i < sv.size(); ++i) {
         const double r = sv[i] / s1;
-        if (r > 1e-6) ++rank;
-        else if (r > 1e-12) wellposed = false;    // ambiguous rank: the QTZ conditioning decision is not modelled
+        if (r > 1e-3) ++rank;
+        else if (r > 1e-12) wellposed = false;    // ambiguous rank (the model's elimination works on G M^-1 ~G, i.e. with r^2): the QTZ conditioning decision is not modelled
     }
+    if (std::getenv("CEQ_DEBUG_SV")) { std::cerr << "sv/s1:"; for (int i = 0; i < sv.size(); ++i) std::cerr << ' ' << sv[i] / s1; std::cerr << std::endl; }
     Vector x; svd.solve(b, x);
     Vector res = G * x - b;
     consistent = maxAbs(res) <= 1e-8 * std::max(1.0, maxAbs(b));
